@@ -278,11 +278,12 @@ CLAIMED.update({
                   "pairs used by physical plans. Field coverage and equality of whole plans are not decided."),
     },
     "C43": {
-        "technique": "static analysis: key/field agreement of set / visit / reset extracted from MIR (string-literal arms, decoded format templates, field tags); exhaustive Display/FromStr round trip of leaf option enums",
+        "technique": "static analysis: key/field agreement of set / visit / reset extracted from MIR (string-literal arms, decoded format templates, field tags); exhaustive Display/FromStr round trip of leaf option enums; path rule: no fallible step after a write to self in set()",
         "level": ("Static: for 15 configuration namespaces (about 200 keys) the keys accepted by set, reported by visit and accepted by "
                   "reset coincide and each key touches the same field in all three; an unknown key is rejected without touching a field; "
                   "for 10 leaf option enums from_str(display(v)) = Ok(v) for every variant (Dialect is table-driven and listed as "
-                  "undecided). Numeric parsing and the SET/SHOW plumbing are not decided."),
+                  "undecided); no set() entry point of the configuration module (49) can fail after it has written self (an invalid value is "
+                  "rejected without changing any option). Numeric parsing and the SET/SHOW plumbing are not decided."),
     },
 })
 
